@@ -443,6 +443,20 @@ class Repo:
                 return f()
             except Exception as exc:  # noqa: BLE001
                 raise _NoFold from exc
+        if isinstance(e, (ast.GeneratorExp, ast.ListComp, ast.SetComp)) and len(e.generators) == 1 and not e.generators[0].ifs and isinstance(e.generators[0].target, ast.Name) and isinstance(e.generators[0].iter, ast.Name):
+            # `x.value for x in SomeEnum` / `x for x in SomeEnum`: the members of a repository enum, in definition order
+            tgt = self.resolve(mod.name, e.generators[0].iter.id)
+            var = e.generators[0].target.id
+            if isinstance(tgt, ClassInfo) and self.is_enum(tgt):
+                members = self.enum_members(tgt)
+                if isinstance(e.elt, ast.Attribute) and e.elt.attr == "value" and isinstance(e.elt.value, ast.Name) and e.elt.value.id == var:
+                    vals = list(members.values())
+                elif isinstance(e.elt, ast.Name) and e.elt.id == var:
+                    vals = [EnumMember(tgt.ref, k, v) for k, v in members.items()]
+                else:
+                    raise _NoFold
+                return frozenset(vals) if isinstance(e, ast.SetComp) else vals
+            raise _NoFold
         if isinstance(e, ast.Call):
             fn = ast.unparse(e.func)
             if fn == "float" and len(e.args) == 1:
